@@ -18,7 +18,10 @@ corr   = Model/Assign.v evaluated by vm_compute on the same histories (Corr/C07.
          class, the obstacle keys, every assignment attribute of every obstacle and every registry of every lanelet
          must agree; the model's two geometric oracles are tables filled with what find_lanelet_by_position /
          find_lanelet_by_shape return for the obstacle's states (that these agree with the geometry is C06 and
-         clause (2) above)."""
+         clause (2) above).  ORead = file opened with lanelet_assignment=True, OLoad = opened without (then assigned by
+         the history); C07_read_complete / C07_read_is_assign: the reader stores the lookup of every state of its own.
+         A reader or an assignment that reuses the lanelets of a previous state (e.g. because the position did not
+         change while the orientation did) disagrees with the model and with the brute-force geometry."""
 import atexit
 import contextlib
 import io
@@ -68,6 +71,10 @@ ASSUME = ["the obstacles do not move and the lanelet network does not change dur
           "states are exact (no uncertain positions); dynamic obstacles have a TrajectoryPrediction that starts one "
           "step after the initial state, or no prediction (set-based predictions are never assigned by the library)",
           "a file read with lanelet_assignment=True is schema-valid: its dynamic obstacles have a trajectory",
+          "a file opened with lanelet_assignment=False yields new obstacle objects without assignment attributes (the "
+          "model's admissibility test `ok` demands it in the correspondence; the oracle judges whatever is stored)",
+          "positions and orientations of consecutive states are compared nowhere by the oracle or the model: every time "
+          "step is judged with the geometry / lookup of its own state (identical consecutive poses are ordinary inputs)",
           "which lanelets contain a point / meet a shape is taken from find_lanelet_by_position / find_lanelet_by_shape "
           "in the Coq model (their geometric correctness is C06); the Python oracle compares the recorded sets with a "
           "brute-force computation, using for a Circle the disc the implementation itself uses (radius/2, recorded "
